@@ -31,7 +31,8 @@ def run(ctx, focus='C11'):
     saved_in = {}
     for i in range(ctx.scale(50, 300)):
         n_before = len(viol)
-        pws, ngram, mode, maxlen = ct.gen_training(rng)
+        # the third list always contains double quotes (characters a delimited-text writer would quote or escape)
+        pws, ngram, mode, maxlen = ct.gen_training(rng, letters='a"b' if i == 2 else None)
         asize = rng.choice([100, 100, 2, 3])
         if i == 0:
             # whatever the seed: a word-like list whose transition table has dead ends below the highest level (the search
